@@ -1,54 +1,71 @@
-import CashewsVerif.Lemmas.ClientSideInv
+import CashewsVerif.Lemmas.ClientSideInv2
 /-
 C20 — the client-side cache agrees with the server once invalidations are delivered.
 
-ABOUT MODELS (as C19): `CS.step` models `client_side.py` (as repaired for findings D26 and D31) for several clients
-over the server model `Redis.Srv` extended with BCAST tracking (every modification, expiry and flush is announced to
-every tracking client, the writer included; expiry is announced when time passes the deadline).  Neither redis-py nor a
-Redis server is available in the sandbox; the correspondence check runs 2–3 real `BcastClientSide` instances on the
-stub `redis` package whose server (with the announcement queues) is this model.
+ABOUT MODELS (as C19): `CS.step` models `client_side.py` (with the repairs of findings D26, D31 and D37, now in the code)
+for several clients over the server model `Redis.Srv` extended with BCAST tracking (every modification, expiry and
+flush is announced to every tracking client, the writer included; expiry is announced when time passes the deadline).
+Neither redis-py nor a Redis server is available in the sandbox; the correspondence check runs 2–3 real
+`BcastClientSide` instances on the stub `redis` package whose server (with the announcement queues) is this model.
 
 A *quiescent point* is a state in which every announcement issued so far has been processed: `qstep` = one command
 followed by complete delivery to every client.
 -/
+set_option linter.unusedSimpArgs false
 namespace CashewsVerif.Props.C20
 open CashewsVerif CashewsVerif.Redis CashewsVerif.Redis.CS
 open CashewsVerif.Redis.CS (Op step qrun qstep)
 
-/- The full statement (for every command of `CS.Op`) is
+/-- **Agreement at quiescent points, for every command of the model.**  For every history over ALL twenty commands of
+`CS.Op` — get, get_many, get_match, scan, get_expire, exists, set (plain and conditional), set_many, incr (with and
+without a TTL: INCRBY and the `_INCR_EXPIRE` script), delete, delete_many, delete_match, expire, clear (flush), set_lock,
+unlock, explicit delivery, drops of the invalidation connection, reconnects and time advances across TTLs — issued by any
+number of clients, with
+delivery completed after each command: nothing is in flight (`Quiet`) and every live entry of every connected client's
+local copy says what the server says — a value is the server's value, a "known absent" marker means the server has
+nothing readable under that key (`Agree`).
 
-     theorem agreement_at_quiescence (isEnc) (ops : List Op) (h : every written object is decodable, `expire` > 0,
-         `set_many` keys distinct) : Quiet (qrun (St.init isEnc) ops).1 ∧ Agree (qrun (St.init isEnc) ops).1
-
-   It is proved below for histories over the commands listed in `CS.Covered`:
-   get, get_many, exists, set (plain and conditional), incr without TTL, delete, delete_many, delete_match, expire (> 0),
-   clear (flush), drop, reconnect and time advances (expiry).
-   NOT YET PROVED (covered by the correspondence check only): set_many, incr with a TTL (the Lua script path) and
-   set_lock/unlock (lock keys hold raw tokens, which the read path does not decode).  What is missing is only the
-   per-command preservation lemma (`inv_<command>` in Lemmas/ClientSideInv.lean, from `after_write` + `inv_after`); the
-   invariant, the delivery lemmas and the locality of the server commands (`exec_outside`, `srvCmd_facts`) are general. -/
-
-/-- **Agreement at quiescent points (partial: the commands of `Covered`).**  For every history of reads (get, get_many,
-exists), writes, conditional writes, increments, deletes, pattern deletes, re-timings, flushes, time advances across
-TTLs, drops of the invalidation connection and reconnects, issued by any number of clients, with delivery completed
-after each command: nothing is in flight (`Quiet`) and every
-live entry of every connected client's local copy says what the server says — a value is the server's value, a
-"known absent" marker means the server has nothing readable under that key (`Agree`). -/
-theorem agreement_at_quiescence_partial (isEnc : String → Bool) (ops : List CS.Op)
-    (hcov : ∀ op ∈ ops, Covered isEnc op) :
+`WF` constrains ARGUMENTS only (it excludes no command): a written value is one the serializer reads back (C09), a lock
+token likewise (digits or a decodable payload: a raw token is answered from the holder's local copy by `get` but read as
+"nothing" from the server, by the code itself).  `expire` takes any time, 0 included (finding D37, repaired: the server
+deletes the key and the caller remembers "absent").  `set_many` may repeat a key. -/
+theorem agreement_at_quiescence (isEnc : String → Bool) (ops : List CS.Op)
+    (hwf : ∀ op ∈ ops, WF isEnc op) :
     Quiet (CS.qrun (St.init isEnc) ops).1 ∧ Agree (CS.qrun (St.init isEnc) ops).1 :=
-  (inv2_qrun ops (St.init isEnc) (inv2_init isEnc) hcov).1
+  (inv2_qrun ops (St.init isEnc) (inv2_init isEnc) hwf).1
 
 /-- …hence, at such a point, `get`, `get_many` and `exists` of ANY client (connected or not) answer exactly what the
 server holds. -/
-theorem reads_equal_server (isEnc : String → Bool) (ops : List CS.Op) (hcov : ∀ op ∈ ops, Covered isEnc op)
+theorem reads_equal_server (isEnc : String → Bool) (ops : List CS.Op) (hwf : ∀ op ∈ ops, WF isEnc op)
     (i : Nat) (k : String) (ks : List String) :
     let st := (CS.qrun (St.init isEnc) ops).1
     (CS.step st (.get i k)).2 = .val (srvValue st k) ∧ (CS.step st (.exists_ i k)).2 = .bool (st.srv.ks.present k) ∧
     (CS.step st (.getMany i ks)).2 = .vals (ks.map (srvValue st)) := by
   intro st
-  have h := (agreement_at_quiescence_partial isEnc ops hcov).2
+  have h := (agreement_at_quiescence isEnc ops hwf).2
   exact ⟨get_eq_server st h i k, exists_eq_server st h i k, getMany_eq_server st h i ks⟩
+
+/-- …and so do the pattern reads: `scan` lists the server's matching keys (it never consults the local copy) and
+`get_match` yields exactly the server's readable content under those keys.  (`get_expire` is part of the histories above
+— it only re-times or forgets an entry of the caller's local copy — but its ANSWER is not claimed to be the server's: the
+code answers from the local copy's own deadline when that is positive, which a TTL-less overwrite or a second
+`incr(…, expire)` leaves different from the server's.) -/
+theorem pattern_reads_equal_server (isEnc : String → Bool) (ops : List CS.Op) (hwf : ∀ op ∈ ops, WF isEnc op)
+    (i : Nat) (pat : String) :
+    let st := (CS.qrun (St.init isEnc) ops).1
+    (CS.step st (.scan i pat)).2 = .keys (Ref.matching st.srv.ks pat) ∧
+    (CS.step st (.getMatch i pat)).2 =
+      .pairs ((Ref.matching st.srv.ks pat).filterMap fun k => (srvValue st k).map fun v => (k, v)) := by
+  intro st
+  have h := (agreement_at_quiescence isEnc ops hwf).2
+  refine ⟨rfl, ?_⟩
+  simp only [CS.step, getManyCore_eq_server st h i]
+  congr 1
+  generalize Ref.matching st.srv.ks pat = ks
+  induction ks with
+  | nil => rfl
+  | cons k ks ih =>
+    simp only [List.map_cons, List.zip_cons_cons, List.filterMap_cons, ih]
 
 /-- **A conditional write the server rejected never becomes readable from the writer's local copy** (any state,
 quiescent or not): the local copy of the writer is exactly what it was, and so are everybody else's. -/
@@ -126,10 +143,10 @@ def sampleHist : List CS.Op :=
    .drop 0, .set 1 "j" (.int 8) none .always, .get 0 "j", .adv 10000, .reconnect 0, .get 0 "j",
    .set 1 "j" (.int 9) none .always, .get 0 "j", .deleteMany 0 ["j", "zz"], .get 1 "j", .clear 1, .get 0 "j"]
 
-example : ∀ op ∈ sampleHist, Covered dec op := by
+example : ∀ op ∈ sampleHist, WF dec op := by
   intro op hop
   simp only [sampleHist, List.mem_cons, List.mem_nil_iff, or_false] at hop
-  repeat (first | (rcases hop with h | hop; · subst h; simp [Covered, dec, pxOf]) | (subst hop; simp [Covered, dec, pxOf]))
+  repeat (first | (rcases hop with h | hop; · subst h; simp [WF, DecV, dec]) | (subst hop; simp [WF, DecV, dec]))
 
 /-- the model computes on it: every read is the server's content of that moment -/
 example : (CS.qrun (St.init dec) sampleHist).2 =
@@ -138,6 +155,72 @@ example : (CS.qrun (St.init dec) sampleHist).2 =
      .val (some (.int 2)), .none_, .none_, .vals [none], .bool true, .val (some (.int 3)), .none_, .val none, .none_, .bool true,
      .val (some (.int 8)), .none_, .none_, .val (some (.int 8)), .bool true, .val (some (.int 9)), .none_, .val none, .none_,
      .val none] := by decide +kernel
+
+/-- the four commands the earlier, partial theorem left out, and an explicit delivery: a pipeline of writes that repeats
+a key, read by the other client; a counter armed with a TTL by its first increment only (the second incrementer's local
+copy would outlive the server's key: the expiry announcement removes it); a lock taken, contended, released with the
+wrong and with the right token, seen through `exists` and `get` by both clients; a lock that lapses -/
+def sampleHist2 : List CS.Op :=
+  [.setMany 0 [("a", .int 1), ("b", .obj "bb"), ("a", .int 2)] (some 1000), .get 1 "a", .get 0 "a", .getMany 1 ["a", "b"],
+   .incr 0 "n" 1 (some 500), .get 1 "n", .adv 200, .incr 1 "n" 1 (some 500), .get 0 "n", .adv 300, .get 1 "n", .get 0 "n",
+   .setLock 0 "L" (.blob "aa") 400, .exists_ 1 "L", .get 1 "L", .setLock 1 "L" (.blob "cc") 400, .get 1 "L",
+   .unlock 1 "L" (.blob "cc"), .exists_ 0 "L", .unlock 0 "L" (.blob "aa"), .exists_ 0 "L", .get 0 "L", .exists_ 1 "L",
+   .setLock 1 "L" (.num 5) 400, .get 0 "L", .adv 400, .get 0 "L", .exists_ 1 "L", .deliver 0, .adv 1000,
+   .getMany 0 ["a", "b"]]
+
+example : ∀ op ∈ sampleHist2, WF dec op := by
+  intro op hop
+  simp only [sampleHist2, List.mem_cons, List.mem_nil_iff, or_false] at hop
+  repeat (first | (rcases hop with h | hop; · subst h; simp [WF, DecV, TokOK, dec]) | (subst hop; simp [WF, DecV, TokOK, dec]))
+
+example : (CS.qrun (St.init dec) sampleHist2).2 =
+    [.none_, .val (some (.int 2)), .val (some (.int 2)), .vals [some (.int 2), some (.obj "bb")], .int 1, .val (some (.int 1)),
+     .none_, .int 2, .val (some (.int 2)), .none_, .val none, .val none, .bool true, .bool true, .val (some (.obj "aa")),
+     .bool false, .val (some (.obj "aa")), .int 0, .bool true, .int 1, .bool false, .val none, .bool false, .bool true,
+     .val (some (.int 5)), .none_, .val none, .bool false, .none_, .none_, .vals [none, none]] := by decide +kernel
+
+/-- the theorem instantiated on it: after the whole history both clients' reads are the server's content -/
+example : (CS.step (CS.qrun (St.init dec) sampleHist2).1 (.get 1 "a")).2 = .val (srvValue (CS.qrun (St.init dec) sampleHist2).1 "a") :=
+  (reads_equal_server dec sampleHist2 (by
+    intro op hop
+    simp only [sampleHist2, List.mem_cons, List.mem_nil_iff, or_false] at hop
+    repeat (first | (rcases hop with h | hop; · subst h; simp [WF, DecV, TokOK, dec]) | (subst hop; simp [WF, DecV, TokOK, dec])))
+    1 "a" []).1
+
+/-- the pattern reads and `get_expire`: the server's keys, the server's content under them whoever wrote it, before and
+after an overwrite, a delete and a TTL crossing; `get_expire` answered from the writer's local deadline (2.5 s rounds to 2)
+and, for the other client, by the server (3) -/
+def sampleHist3 : List CS.Op :=
+  [.set 0 "k:a" (.int 1) (some 2500) .always, .set 1 "k:b" (.obj "bb") none .always, .set 1 "j:a" (.int 3) none .always,
+   .scan 0 "k:*", .getMatch 0 "k:*", .getMatch 1 "*", .getExpire 0 "k:a", .getExpire 1 "k:a", .getExpire 1 "k:b", .getExpire 0 "zz",
+   .adv 1000, .getExpire 0 "k:a", .getExpire 1 "k:a", .set 1 "k:a" (.int 9) none .always, .getMatch 0 "k:*", .getExpire 0 "k:a",
+   .delete 0 "k:b", .scan 1 "k:*", .getMatch 1 "k:*", .adv 3000, .getMatch 0 "*"]
+
+example : ∀ op ∈ sampleHist3, WF dec op := by
+  intro op hop
+  simp only [sampleHist3, List.mem_cons, List.mem_nil_iff, or_false] at hop
+  repeat (first | (rcases hop with h | hop; · subst h; simp [WF, DecV, TokOK, dec]) | (subst hop; simp [WF, DecV, TokOK, dec]))
+
+example : (CS.qrun (St.init dec) sampleHist3).2 =
+    [.bool true, .bool true, .bool true, .keys ["k:a", "k:b"], .pairs [("k:a", .int 1), ("k:b", .obj "bb")],
+     .pairs [("k:a", .int 1), ("k:b", .obj "bb"), ("j:a", .int 3)], .int 2, .int 3, .int (-1), .int (-2), .none_, .int 2, .int 2,
+     .bool true, .pairs [("k:a", .int 9), ("k:b", .obj "bb")], .int (-1), .bool true, .keys ["k:a"], .pairs [("k:a", .int 9)],
+     .none_, .pairs [("k:a", .int 9), ("j:a", .int 3)]] := by decide +kernel
+
+/-- `expire(k, 0)` (finding D37, repaired): the server deletes the key, the caller's local copy says "absent", every
+client reads nothing — and a later write is seen again -/
+def sampleHist4 : List CS.Op :=
+  [.set 0 "k" (.int 1) none .always, .get 0 "k", .get 1 "k", .expire 0 "k" 0, .get 0 "k", .exists_ 0 "k", .get 1 "k",
+   .expire 1 "zz" 0, .get 1 "zz", .set 1 "k" (.int 2) none .always, .get 0 "k"]
+
+example : ∀ op ∈ sampleHist4, WF dec op := by
+  intro op hop
+  simp only [sampleHist4, List.mem_cons, List.mem_nil_iff, or_false] at hop
+  repeat (first | (rcases hop with h | hop; · subst h; simp [WF, DecV, TokOK, dec]) | (subst hop; simp [WF, DecV, TokOK, dec]))
+
+example : (CS.qrun (St.init dec) sampleHist4).2 =
+    [.bool true, .val (some (.int 1)), .val (some (.int 1)), .none_, .val none, .bool false, .val none, .none_, .val none,
+     .bool true, .val (some (.int 2))] ∧ srvValue (CS.qrun (St.init dec) (sampleHist4.take 4)).1 "k" = none := by decide +kernel
 
 /-- a rejected conditional write exists (the premise of `rejected_conditional_never_readable` is reachable) -/
 example : (CS.step (CS.qrun (St.init dec) [.set 0 "k" (.int 1) none .always]).1 (.set 1 "k" (.int 2) none .nx)).2 = .bool false := by
